@@ -120,8 +120,10 @@ Definition c06_eval (case obs: list N) : list N * list N :=       (* (view, fail
       end
   | _, _ => ([3054], [3054])
   end.
-Definition view_C06 (case obs: list N) : list N := fst (c06_eval case obs).
-Definition ok_C06 (case obs: list N) : list N := snd (c06_eval case obs).
+(* scripts without probes (empty meta: device read faults inside link frames) are outside C06 *)
+Definition c06_applies (case: list N) : bool := match rcv_split case with Some (_, [], _) => false | _ => true end.
+Definition view_C06 (case obs: list N) : list N := if c06_applies case then fst (c06_eval case obs) else [].
+Definition ok_C06 (case obs: list N) : list N := if c06_applies case then snd (c06_eval case obs) else [].
 
 (* ---------- LNK ---------- *)
 Fixpoint parse_packets_n (k: nat) (l: list N) : option (list packet * list N) :=
